@@ -306,7 +306,7 @@ def check_annotate(ctx, case_seed):
 
 def run(ctx):
     rnd = ctx.rng('ann')
-    n = {'quick': 6000, 'thorough': 150000}[ctx.tier] // ctx.nshards
+    n = {'quick': 12000, 'thorough': 1000000}[ctx.tier] // ctx.nshards
     for i in range(n):
         if ctx.out_of_time('annotation twins'):
             break
